@@ -11,7 +11,13 @@ use rayon::prelude::*;
 use serde_json::{json, Value};
 
 pub const SCALES: [i32; 7] = [-200, -64, -1, 1, 10, 64, 200];
-pub const TRANSLATIONS: [(f64, f64); 5] = [(7.0, 0.0), (-7.0, 0.0), (0.0, 7.0), (0.0, -7.0), (1048576.0, -1048576.0)];
+pub const TRANSLATIONS: [(f64, f64); 5] = [
+    (7.0, 0.0),
+    (-7.0, 0.0),
+    (0.0, 7.0),
+    (0.0, -7.0),
+    (1048576.0, -1048576.0),
+];
 
 fn scale_mp(mp: &MP, k: i32) -> MP {
     let s = 2f64.powi(k);
@@ -19,7 +25,14 @@ fn scale_mp(mp: &MP, k: i32) -> MP {
 }
 
 /// all transform checks on one pair of operands; `wit`/`truth`: witnesses with the expected membership per op
-fn transform_pair(pa: &MP, pb: &MP, wit: &[P], expect: &dyn Fn(usize, geo_booleanop::boolean::Operation) -> bool, exact_family: bool, loc: &mut Local) -> Vec<String> {
+fn transform_pair(
+    pa: &MP,
+    pb: &MP,
+    wit: &[P],
+    expect: &dyn Fn(usize, geo_booleanop::boolean::Operation) -> bool,
+    exact_family: bool,
+    loc: &mut Local,
+) -> Vec<String> {
     let mut cl = vec![];
     for op in OPS {
         let base = match call(pa, pb, op).res {
@@ -37,7 +50,10 @@ fn transform_pair(pa: &MP, pb: &MP, wit: &[P], expect: &dyn Fn(usize, geo_boolea
                 Err(_) => false,
             };
             if !ok {
-                cl.push(format!("C08 scaling-by-2^{k}-not-bit-identical {}", op_name(op)));
+                cl.push(format!(
+                    "C08 scaling-by-2^{k}-not-bit-identical {}",
+                    op_name(op)
+                ));
             }
         }
         if exact_family {
@@ -49,7 +65,10 @@ fn transform_pair(pa: &MP, pb: &MP, wit: &[P], expect: &dyn Fn(usize, geo_boolea
                     Err(_) => false,
                 };
                 if !ok {
-                    cl.push(format!("C08 translation-by-({dx},{dy})-changes-rings {}", op_name(op)));
+                    cl.push(format!(
+                        "C08 translation-by-({dx},{dy})-changes-rings {}",
+                        op_name(op)
+                    ));
                 }
             }
         }
@@ -57,11 +76,18 @@ fn transform_pair(pa: &MP, pb: &MP, wit: &[P], expect: &dyn Fn(usize, geo_boolea
             loc.transitions += 1;
             let f = |p: P| symmetry(s, p);
             let ok = match call(&map_mp(pa, &f), &map_mp(pb, &f), op).res {
-                Ok(r) => wit.iter().enumerate().all(|(i, &w)| (polywise(&r, f(w)) >= 1) == expect(i, op)),
+                Ok(r) => wit
+                    .iter()
+                    .enumerate()
+                    .all(|(i, &w)| (polywise(&r, f(w)) >= 1) == expect(i, op)),
                 Err(_) => false,
             };
             if !ok {
-                cl.push(format!("C08 symmetry-{}-changes-region {}", SYM_NAMES[s], op_name(op)));
+                cl.push(format!(
+                    "C08 symmetry-{}-changes-region {}",
+                    SYM_NAMES[s],
+                    op_name(op)
+                ));
             }
         }
     }
@@ -70,16 +96,40 @@ fn transform_pair(pa: &MP, pb: &MP, wit: &[P], expect: &dyn Fn(usize, geo_boolea
 
 fn complex_case(fam: &Family, enc: Enc, a: u32, b: u32, loc: &mut Local) -> Vec<String> {
     let m = |op| model(a, b, op);
-    transform_pair(&fam.enc(enc)[a as usize], &fam.enc(enc)[b as usize], &fam.cx.wit, &|i, op| (m(op) >> i) & 1 == 1, true, loc)
+    transform_pair(
+        &fam.enc(enc)[a as usize],
+        &fam.enc(enc)[b as usize],
+        &fam.cx.wit,
+        &|i, op| (m(op) >> i) & 1 == 1,
+        true,
+        loc,
+    )
 }
 
-fn table_case(t: &crate::tables::Table, spec: &TableSpec, ia: usize, ib: usize, loc: &mut Local) -> Vec<String> {
+fn table_case(
+    t: &crate::tables::Table,
+    spec: &TableSpec,
+    ia: usize,
+    ib: usize,
+    loc: &mut Local,
+) -> Vec<String> {
     let (a, b) = (&t.ops[ia], &t.ops[ib]);
     let mut edges = a.edges.clone();
     edges.extend(b.edges.iter().cloned());
     let wit = witnesses(&edges, spec.tol(Ft::F64));
-    let truth: Vec<(bool, bool)> = wit.pts.iter().map(|&w| (evenodd(&a.mp, w), evenodd(&b.mp, w))).collect();
-    transform_pair(&a.mp, &b.mp, &wit.pts, &|i, op| model_bool(truth[i].0, truth[i].1, op), false, loc)
+    let truth: Vec<(bool, bool)> = wit
+        .pts
+        .iter()
+        .map(|&w| (evenodd(&a.mp, w), evenodd(&b.mp, w)))
+        .collect();
+    transform_pair(
+        &a.mp,
+        &b.mp,
+        &wit.pts,
+        &|i, op| model_bool(truth[i].0, truth[i].1, op),
+        false,
+        loc,
+    )
 }
 
 pub fn replay(case: &Value, verbose: bool) -> Vec<String> {
@@ -87,13 +137,26 @@ pub fn replay(case: &Value, verbose: bool) -> Vec<String> {
     if case["kind"] == "table" {
         let spec = TableSpec::from_json(&case["table"]);
         let t = spec.build();
-        return table_case(&t, &spec, case["a"].as_u64().unwrap() as usize, case["b"].as_u64().unwrap() as usize, &mut loc);
+        return table_case(
+            &t,
+            &spec,
+            case["a"].as_u64().unwrap() as usize,
+            case["b"].as_u64().unwrap() as usize,
+            &mut loc,
+        );
     }
     let fam = family_cached(case["family"].as_str().unwrap());
     let enc = enc_from(case["enc"].as_str().unwrap_or("M"));
-    let (a, b) = (case["a"].as_u64().unwrap() as u32, case["b"].as_u64().unwrap() as u32);
+    let (a, b) = (
+        case["a"].as_u64().unwrap() as u32,
+        case["b"].as_u64().unwrap() as u32,
+    );
     if verbose {
-        println!("A = {}\nB = {}", hex(&fam.enc(enc)[a as usize]), hex(&fam.enc(enc)[b as usize]));
+        println!(
+            "A = {}\nB = {}",
+            hex(&fam.enc(enc)[a as usize]),
+            hex(&fam.enc(enc)[b as usize])
+        );
     }
     complex_case(&fam, enc, a, b, &mut loc)
 }
@@ -103,17 +166,59 @@ pub fn run(tier: &str) -> i32 {
     silence_panics();
     let thorough = tier == "thorough";
     let fams: Vec<(&str, Enc)> = if thorough {
-        vec![("G22", Enc::M), ("G32", Enc::M), ("G23", Enc::M), ("G33", Enc::M), ("G33", Enc::U), ("T22", Enc::M), ("T22", Enc::U), ("O21", Enc::M), ("O12", Enc::M), ("G43", Enc::M), ("T32", Enc::M)]
+        vec![
+            ("G22", Enc::M),
+            ("G32", Enc::M),
+            ("G23", Enc::M),
+            ("G33", Enc::M),
+            ("G33", Enc::U),
+            ("T22", Enc::M),
+            ("T22", Enc::U),
+            ("O21", Enc::M),
+            ("O12", Enc::M),
+            ("G43", Enc::M),
+            ("T32", Enc::M),
+        ]
     } else {
-        vec![("G22", Enc::M), ("G32", Enc::M), ("G23", Enc::M), ("G33", Enc::M), ("T22", Enc::M), ("O21", Enc::M), ("O12", Enc::M)]
+        vec![
+            ("G22", Enc::M),
+            ("G32", Enc::M),
+            ("G23", Enc::M),
+            ("G33", Enc::M),
+            ("T22", Enc::M),
+            ("O21", Enc::M),
+            ("O12", Enc::M),
+        ]
     };
     for (name, enc) in fams {
         let fam = Family::new(name);
         let n = fam.cx.noperands();
         // quick tier: the three 256-operand families and G33 are covered on every k-th subject operand
-        let step: u32 = if thorough { if n > 512 { 16 } else { 1 } } else if n >= 512 { 8 } else if n >= 256 { 2 } else { 1 };
-        st.family(&format!("{name}/{}: {} scalings, {} translations, 7 symmetries on {} ordered pairs{}", enc.name(), SCALES.len(), TRANSLATIONS.len(),
-            (n as u64).div_ceil(step as u64) * n as u64, if step > 1 { format!(" (subject restricted to every {step}th operand)") } else { String::new() }));
+        let step: u32 = if thorough {
+            if n > 512 {
+                16
+            } else {
+                1
+            }
+        } else if n >= 512 {
+            8
+        } else if n >= 256 {
+            2
+        } else {
+            1
+        };
+        st.family(&format!(
+            "{name}/{}: {} scalings, {} translations, 7 symmetries on {} ordered pairs{}",
+            enc.name(),
+            SCALES.len(),
+            TRANSLATIONS.len(),
+            (n as u64).div_ceil(step as u64) * n as u64,
+            if step > 1 {
+                format!(" (subject restricted to every {step}th operand)")
+            } else {
+                String::new()
+            }
+        ));
         (0..n).into_par_iter().for_each(|a| {
             if a % step != 0 {
                 return;
@@ -132,9 +237,21 @@ pub fn run(tier: &str) -> i32 {
             st.merge(&loc);
         });
     }
-    for spec in if thorough { vec![p_spec(9, st.seed, 1.0, false), p_spec(16, st.seed, 1.0, false), p_spec(9, st.seed + 1, 1.1 * 1048576.0, false)] } else { vec![p_spec(9, st.seed, 1.0, false)] } {
+    for spec in if thorough {
+        vec![
+            p_spec(9, st.seed, 1.0, false),
+            p_spec(16, st.seed, 1.0, false),
+            p_spec(9, st.seed + 1, 1.1 * 1048576.0, false),
+        ]
+    } else {
+        vec![p_spec(9, st.seed, 1.0, false)]
+    } {
         let t = spec.build();
-        let n = if thorough && spec.n == 9 { t.ops.len() } else { t.n_tri };
+        let n = if thorough && spec.n == 9 {
+            t.ops.len()
+        } else {
+            t.n_tri
+        };
         let cnt = std::sync::atomic::AtomicU64::new(0);
         (0..n).into_par_iter().for_each(|ia| {
             let mut loc = Local::default();
